@@ -2,9 +2,14 @@
 //! Built only by `cargo kani` (harnesses) and by the native replay tests.
 #![allow(clippy::all)]
 
+#[allow(dead_code)]
 pub mod util;
 
 #[cfg(any(kani, test))]
 mod c20;
 #[cfg(any(kani, test))]
 mod print;
+#[cfg(any(kani, test))]
+mod utf8;
+#[cfg(any(kani, test))]
+mod order;
